@@ -1571,10 +1571,12 @@ class Model:
         if (cache := self._cache) is None:
             cache = self._create_cache()
         args = self.get_args(variables=variables, time=time)
+        # the argument table holds no data sets, but computed coefficients may name them
+        coef_args = self._data | args.to_dict() if self._data else args
 
         stoich = copy.deepcopy(cache.stoich_by_cpds[variable])
         for rxn, derived in cache.dyn_stoich_by_cpds.get(variable, {}).items():
-            stoich[rxn] = float(derived.fn(*(args[i] for i in derived.args)))
+            stoich[rxn] = float(derived.fn(*(coef_args[i] for i in derived.args)))
         return stoich
 
     def get_raw_stoichiometries_of_variable(
